@@ -206,6 +206,10 @@ def check(run):
                 outs = [P + 'A1', P + 'B1', P + 'B2', P + 'B3', P + 'B4', P + 'B5', P + 'B6']
                 fc = m.compile(inputs=[P + 'C1'], outputs=outs)
                 ways['compile'] = lambda fc=fc: dict(zip(['A1', 'B1', 'B2', 'B3', 'B4', 'B5', 'B6'], [float(sc(x)) for x in fc(5)]), C1=5)
+                # ... and composed: a function compiled from a copied / unpickled / re-imported model
+                for nm_, mm_ in (('deepcopy+compile', mc), ('dill+compile', md), ('json+compile', mj)):
+                    fcc = mm_.compile(inputs=[P + 'C1'], outputs=outs)
+                    ways[nm_] = lambda fcc=fcc: dict(zip(['A1', 'B1', 'B2', 'B3', 'B4', 'B5', 'B6'], [float(sc(x)) for x in fcc(5)]), C1=5)
                 fc2 = dill.loads(dill.dumps(fc))
                 ways['compile+dill'] = lambda fc2=fc2: dict(zip(['A1', 'B1', 'B2', 'B3', 'B4', 'B5', 'B6'], [float(sc(x)) for x in fc2(5)]), C1=5)
             except Exception as ex:
